@@ -51,7 +51,7 @@ const FIELD_MASK_20: u64 = 0x000F_FFFF;
 // small helpers
 // ---------------------------------------------------------------------------------------------
 
-fn xxh3_128(data: &[u8]) -> u128 {
+pub fn xxh3_128(data: &[u8]) -> u128 {
     xxhash_rust::xxh3::xxh3_128(data)
 }
 
@@ -855,7 +855,17 @@ pub fn decode_slot(bytes: &[u8], opts: &Options, slot: usize) -> Result<Value, S
     decode_impl(bytes, opts, Some(slot))
 }
 
+/// Only the 320-byte header: god byte, layout fields, both commit slots (with their own checksums
+/// recomputed); no tree is walked.
+pub fn decode_header(bytes: &[u8], opts: &Options) -> Result<Value, String> {
+    decode_impl2(bytes, opts, None, true)
+}
+
 fn decode_impl(bytes: &[u8], opts: &Options, slot: Option<usize>) -> Result<Value, String> {
+    decode_impl2(bytes, opts, slot, false)
+}
+
+fn decode_impl2(bytes: &[u8], opts: &Options, slot: Option<usize>, header_only: bool) -> Result<Value, String> {
     if bytes.len() < SUPER_HEADER_LEN {
         return Err(format!(
             "file has {} bytes, less than the {SUPER_HEADER_LEN} byte super-header",
@@ -904,13 +914,17 @@ fn decode_impl(bytes: &[u8], opts: &Options, slot: Option<usize>) -> Result<Valu
 
     let ps = page_size as u64;
     let region_len = (u64::from(region_header_pages) + u64::from(region_max_data_pages)) * ps;
-    let layout_len = ps
-        + u64::from(full_regions) * region_len
-        + if trailing_pages > 0 {
-            (u64::from(region_header_pages) + u64::from(trailing_pages)) * ps
-        } else {
-            0
-        };
+    // (the region counts are not checksummed: a torn header can hold anything)
+    let layout_len = u64::try_from(
+        u128::from(ps)
+            + u128::from(full_regions) * u128::from(region_len)
+            + if trailing_pages > 0 {
+                (u128::from(region_header_pages) + u128::from(trailing_pages)) * u128::from(ps)
+            } else {
+                0
+            },
+    )
+    .unwrap_or(u64::MAX);
 
     let img = Image {
         bytes,
@@ -925,6 +939,21 @@ fn decode_impl(bytes: &[u8], opts: &Options, slot: Option<usize>) -> Result<Valu
 
     let chosen = slot.unwrap_or(primary);
     let s = &slots[chosen];
+    if header_only {
+        return Ok(json!({
+            "page_size": page_size,
+            "file_len": bytes.len(),
+            "god": {"primary": primary, "recovery_required": recovery_required, "two_phase": two_phase},
+            "layout": {
+                "region_header_pages": region_header_pages,
+                "region_max_data_pages": region_max_data_pages,
+                "full_regions": full_regions,
+                "trailing_pages": trailing_pages,
+                "layout_len": layout_len,
+            },
+            "slots": [slots[0].json(), slots[1].json()],
+        }));
+    }
     if s.version != 3 {
         return Err(format!(
             "slot {chosen}: file format version {} is not supported (only v3)",
